@@ -332,6 +332,11 @@ def gen_spec(rng, fmt, tabs, cls_hint=None):
         if rng.random() < 0.5:
             norbb = max(nocc_b, min(norbb, norba))  # same count is the common case
         occs = [1.0] * nocc_a + [0.0] * (norba - nocc_a) + [1.0] * nocc_b + [0.0] * (norbb - nocc_b)
+        if nocc_a > nocc_b and norbb > nocc_b and rng.random() < 0.25:
+            # a fractional beta occupation between the beta and the alpha electron count (smeared / fractional-electron
+            # calculations): formats that cannot store it must refuse, the others must keep it
+            occs[norba + nocc_b] = round(rng.uniform(0.05, 0.45), 5)
+            mokind = "unrestricted-fractional"
         norb = norba + norbb
         ea = sorted(round(rng.uniform(-3, 2), 6) for _ in range(norba))
         eb = sorted(round(rng.uniform(-3, 2), 6) for _ in range(norbb))
@@ -351,6 +356,10 @@ def gen_spec(rng, fmt, tabs, cls_hint=None):
         elif mokind == "aminusb":
             occs = [2.0] * nocc_b + [1.0] * (nocc_a - nocc_b) + [0.0] * (norb - nocc_a)
             aminusb = [0.0] * nocc_b + [1.0] * (nocc_a - nocc_b) + [0.0] * (norb - nocc_a)
+            if nocc_a > nocc_b and rng.random() < 0.25:
+                # alpha 1.0, beta 0.3 in the first singly occupied orbital
+                occs[nocc_b], aminusb[nocc_b] = 1.3, 0.7
+                mokind = "aminusb-fractional"
         else:  # natural orbitals, fractional occupations
             occs = sorted((round(rng.uniform(0.01, 1.99), 5) for _ in range(norb)), reverse=True)
             tot = max(2, 2 * round(sum(occs) / 2))  # an even, integer number of electrons
